@@ -14,9 +14,12 @@ import (
 
 	apierrors "k8s.io/apimachinery/pkg/api/errors"
 	"k8s.io/apimachinery/pkg/api/meta"
+	metav1 "k8s.io/apimachinery/pkg/apis/meta/v1"
 	"k8s.io/apimachinery/pkg/apis/meta/v1/unstructured"
 	k8sruntime "k8s.io/apimachinery/pkg/runtime"
 	"k8s.io/apimachinery/pkg/runtime/schema"
+	"k8s.io/apimachinery/pkg/types"
+	utilruntime "k8s.io/apimachinery/pkg/util/runtime"
 	"k8s.io/apimachinery/pkg/watch"
 	dynamicfake "k8s.io/client-go/dynamic/fake"
 	clienttesting "k8s.io/client-go/testing"
@@ -266,10 +269,71 @@ func (m *dynMapper) ResourceSingularizer(resource string) (string, error) {
 
 var _ meta.ResettableRESTMapper = &dynMapper{}
 
+// ---- test-controlled watch connections ---------------------------------------------
+//
+// Every watch the informers open goes through a proxy in front of the tracker's
+// watch.  `break K`: the proxies of kind K stop forwarding (the connection is
+// dead, the events are lost).  `relist K`: they answer with a 410 Gone/Expired
+// status error, as an apiserver does for a too old resourceVersion; the
+// reflector then RE-LISTS (after its 0.8-1.6 s backoff) and opens a new watch.
+type proxyWatch struct {
+	kind    int
+	inner   watch.Interface
+	out     chan watch.Event
+	stopCh  chan struct{}
+	once    sync.Once
+	drop    *int32 // shared per kind: 1 = connection dead
+	stopped int32
+}
+
+func newProxyWatch(kind int, inner watch.Interface, drop *int32) *proxyWatch {
+	p := &proxyWatch{kind: kind, inner: inner, out: make(chan watch.Event), stopCh: make(chan struct{}), drop: drop}
+	go func() {
+		for ev := range inner.ResultChan() {
+			if atomic.LoadInt32(p.drop) == 1 {
+				continue
+			}
+			select {
+			case p.out <- ev:
+			case <-p.stopCh:
+				return
+			}
+		}
+	}()
+	return p
+}
+
+func (p *proxyWatch) Stop() {
+	p.once.Do(func() {
+		atomic.StoreInt32(&p.stopped, 1)
+		close(p.stopCh)
+		p.inner.Stop()
+	})
+}
+func (p *proxyWatch) ResultChan() <-chan watch.Event { return p.out }
+
+// expire answers the watch with 410 Expired; false if nobody was listening.
+func (p *proxyWatch) expire() bool {
+	if atomic.LoadInt32(&p.stopped) == 1 {
+		return false
+	}
+	ev := watch.Event{Type: watch.Error, Object: &metav1.Status{
+		Status: metav1.StatusFailure, Code: 410, Reason: metav1.StatusReasonExpired,
+		Message: "too old resource version: 1 (2)"}}
+	select {
+	case p.out <- ev:
+		return true
+	case <-p.stopCh:
+		return false
+	case <-time.After(2 * time.Second):
+		return false
+	}
+}
+
 // ---- scripts -------------------------------------------------------------------------
 
 type rstep struct {
-	kind    string // add | update | delete | cancel | forbid (LIST of id.gk becomes Forbidden) | fail (a fatal error is due: wait for it)
+	kind    string // break / relist (watch gap of kind id.gk, see proxyWatch) | add | update | delete | cancel | forbid (LIST of id.gk becomes Forbidden) | fail (a fatal error is due: wait for it)
 	id      oid
 	variant int
 }
@@ -379,10 +443,44 @@ func runReporterScript(sc *rscript) (obs *robs) {
 		}
 		return false, nil, nil
 	})
+	var proxyMu sync.Mutex
+	var proxies []*proxyWatch
+	dropFlag := make([]int32, len(kinds))
+	watchCount := make([]int64, len(kinds))
 	client.PrependWatchReactor("*", func(a clienttesting.Action) (bool, watch.Interface, error) {
 		atomic.AddInt64(&act, 1)
-		return false, nil, nil
+		kind := -1
+		for k, ki := range kinds {
+			if ki.resource == a.GetResource().Resource && ki.gvk.Group == a.GetResource().Group {
+				kind = k
+			}
+		}
+		if kind < 0 {
+			return false, nil, nil
+		}
+		inner, err := client.Tracker().Watch(a.GetResource(), a.GetNamespace())
+		if err != nil {
+			return true, nil, err
+		}
+		pw := newProxyWatch(kind, inner, &dropFlag[kind])
+		proxyMu.Lock()
+		proxies = append(proxies, pw)
+		proxyMu.Unlock()
+		atomic.AddInt64(&watchCount[kind], 1)
+		return true, pw, nil
 	})
+	// every version written gets a fresh resourceVersion (the informer tells
+	// changed from unchanged objects by it at a re-list), every creation a new UID
+	rv := 0
+	uids := map[oid]string{}
+	stamp := func(id oid, u *unstructured.Unstructured, create bool) {
+		rv++
+		u.SetResourceVersion(fmt.Sprint(rv))
+		if create {
+			uids[id] = fmt.Sprintf("uid-%d", rv)
+		}
+		u.SetUID(types.UID(uids[id]))
+	}
 
 	truth := map[int]bool{}
 	for k, ki := range kinds {
@@ -390,6 +488,7 @@ func runReporterScript(sc *rscript) (obs *robs) {
 	}
 	for _, p := range sc.pre {
 		u := buildObject(p.id, p.variant)
+		stamp(p.id, u, true)
 		if err := client.Tracker().Create(kinds[p.id.gk].gvr(), u, u.GetNamespace()); err != nil {
 			panic(err)
 		}
@@ -498,9 +597,37 @@ func runReporterScript(sc *rscript) (obs *robs) {
 			waitQuiet(&act, 30*time.Millisecond, 2*time.Second)
 			continue
 		}
+		if s.kind == "break" {
+			atomic.StoreInt32(&dropFlag[s.id.gk], 1)
+			continue
+		}
+		if s.kind == "relist" {
+			k := s.id.gk
+			atomic.StoreInt32(&dropFlag[k], 0)
+			proxyMu.Lock()
+			cur := append([]*proxyWatch(nil), proxies...)
+			proxyMu.Unlock()
+			before := atomic.LoadInt64(&watchCount[k])
+			n := int64(0)
+			for _, pw := range cur {
+				if pw.kind == k && pw.expire() {
+					n++
+				}
+			}
+			atomic.AddInt64(&act, 1)
+			// the reflectors re-list after their backoff and open new watches
+			deadline := time.Now().Add(8 * time.Second)
+			for !cancelled && atomic.LoadInt64(&watchCount[k]) < before+n && time.Now().Before(deadline) {
+				time.Sleep(5 * time.Millisecond)
+			}
+			waitQuiet(&act, 60*time.Millisecond, 3*time.Second)
+			continue
+		}
 		before := seen(s.id)
 		gvr := kinds[s.id.gk].gvr()
 		u := buildObject(s.id, s.variant)
+		stamp(s.id, u, s.kind == "add")
+		inGap := atomic.LoadInt32(&dropFlag[s.id.gk]) == 1
 		var err error
 		switch s.kind {
 		case "add":
@@ -527,7 +654,7 @@ func runReporterScript(sc *rscript) (obs *robs) {
 		}
 		atomic.AddInt64(&act, 1)
 		// barrier: the event for this mutation (if the id is watched), then quiet
-		if isWatched(s.id) && !cancelled {
+		if isWatched(s.id) && !cancelled && !inGap {
 			deadline := time.Now().Add(400 * time.Millisecond)
 			for seen(s.id) == before && time.Now().Before(deadline) {
 				time.Sleep(time.Millisecond)
@@ -611,6 +738,43 @@ func reporterCorpus() []*rscript {
 				steps: []rstep{{"update", wid(1, 1), variantSlow}, {"delete", crd, 0}, {"delete", wid(1, 1), 0}, {"add", cm(2, 1), 0},
 					{"forbid", wid(1, 1), 0}, {"add", crd, 0}, {"fail", oid{}, 0}, {"update", cm(2, 1), 1}}})
 		}
+	}
+	// watch gaps: the change is learnt from the RE-LIST after a 410 Expired, not
+	// from a watch event (tombstone deletes, synthetic adds/updates)
+	for _, root := range []bool{true, false} {
+		brk, rel := rstep{"break", sec(1, 1), 0}, rstep{"relist", sec(1, 1), 0}
+		l = append(l,
+			&rscript{label: "gap:delete", root: root, watched: []oid{sec(1, 1), sec(1, 2), cm(1, 1)},
+				pre: []preObj{{sec(1, 1), 0}, {sec(1, 2), 1}, {sec(2, 2), 0}},
+				steps: []rstep{{"update", sec(1, 1), 2}, brk, {"delete", sec(1, 1), 0}, {"delete", sec(2, 2), 0}, {"add", cm(1, 1), 0}, rel,
+					{"update", sec(1, 2), 0}, {"add", sec(1, 1), 1}}},
+			&rscript{label: "gap:update", root: root, watched: []oid{sec(1, 1), sec(2, 1)},
+				pre: []preObj{{sec(1, 1), 0}, {sec(2, 1), 0}, {sec(1, 2), 0}},
+				steps: []rstep{brk, {"update", sec(1, 1), 1}, {"update", sec(1, 1), 2}, {"update", sec(1, 2), 1}, rel,
+					{"update", sec(2, 1), 3}, {"delete", sec(1, 1), 0}}},
+			&rscript{label: "gap:create", root: root, watched: []oid{sec(1, 1), sec(2, 1), sec(2, 2)},
+				pre: []preObj{{sec(2, 2), 0}},
+				steps: []rstep{brk, {"add", sec(1, 1), 1}, {"add", sec(1, 2), 0}, {"add", sec(2, 1), 0}, {"delete", sec(2, 1), 0}, rel,
+					{"update", sec(1, 1), 0}, {"add", sec(2, 1), 2}}},
+			&rscript{label: "gap:delete-recreate", root: root, watched: []oid{sec(1, 1), sec(1, 2)},
+				pre: []preObj{{sec(1, 1), 0}, {sec(1, 2), 0}},
+				steps: []rstep{brk, {"delete", sec(1, 1), 0}, {"add", sec(1, 1), 2}, {"delete", sec(1, 2), 0}, {"add", sec(1, 2), 1},
+					{"delete", sec(1, 2), 0}, rel, {"update", sec(1, 1), 0}}},
+			&rscript{label: "gap:nothing-changed", root: root, watched: []oid{sec(1, 1), cm(1, 1)},
+				pre:   []preObj{{sec(1, 1), 1}},
+				steps: []rstep{brk, {"add", cm(1, 1), 0}, rel, {"update", sec(1, 1), 0}}},
+			&rscript{label: "gap:cluster-scoped", root: root, watched: []oid{{5, 0, 1}, {5, 0, 2}},
+				pre: []preObj{{oid{5, 0, 1}, 0}},
+				steps: []rstep{{"break", oid{5, 0, 1}, 0}, {"delete", oid{5, 0, 1}, 0}, {"add", oid{5, 0, 2}, 1},
+					{"relist", oid{5, 0, 1}, 0}, {"update", oid{5, 0, 2}, 0}}},
+			&rscript{label: "gap:widget", root: root, watched: []oid{crd, wid(1, 1), wid(2, 1)},
+				pre: []preObj{{crd, 0}, {wid(1, 1), 0}, {wid(2, 1), 1}},
+				steps: []rstep{{"break", wid(1, 1), 0}, {"delete", wid(1, 1), 0}, {"update", wid(2, 1), 0},
+					{"relist", wid(1, 1), 0}, {"add", wid(1, 1), 1}}},
+			&rscript{label: "gap:namespace-kind", root: root, watched: []oid{ns1, sec(1, 1)},
+				pre:   []preObj{{ns1, 0}, {sec(1, 1), 0}},
+				steps: []rstep{{"break", ns1, 0}, {"delete", ns1, 0}, {"relist", ns1, 0}, {"update", sec(1, 1), 1}}},
+		)
 	}
 	for _, root := range []bool{true, false} {
 		l = append(l,
@@ -842,6 +1006,85 @@ func genBenignThenFatal(r *rand.Rand) *rscript {
 	return sc
 }
 
+// genGapScript: mutations of watched and unwatched objects of one kind while the
+// watch connections of that kind are broken, then a 410 re-list, then more
+// mutations; other kinds keep being observed normally.
+func genGapScript(r *rand.Rand) *rscript {
+	sc := &rscript{label: "gap:generated", root: r.Intn(2) == 0}
+	k := []int{2, 3, 3, 5, kWidget}[r.Intn(5)]
+	var objs []oid
+	if kinds[k].namespaced {
+		for ns := 1; ns <= 2; ns++ {
+			for n := 1; n <= 2; n++ {
+				objs = append(objs, oid{k, ns, n})
+			}
+		}
+	} else {
+		objs = []oid{{k, 0, 1}, {k, 0, 2}}
+	}
+	otherK := 2
+	if k == 2 {
+		otherK = 3
+	}
+	other := []oid{{otherK, 1, 1}, {otherK, 2, 2}}
+	exists := map[oid]bool{}
+	if k == kWidget {
+		crd := oid{kCRD, 0, 1}
+		sc.pre = append(sc.pre, preObj{crd, 0})
+		if r.Intn(2) == 0 {
+			sc.watched = append(sc.watched, crd)
+		}
+	}
+	for _, o := range objs {
+		if r.Intn(100) < 65 {
+			sc.watched = append(sc.watched, o)
+		}
+		if r.Intn(100) < 60 {
+			sc.pre = append(sc.pre, preObj{o, r.Intn(nVariants)})
+			exists[o] = true
+		}
+	}
+	if len(sc.watched) == 0 {
+		sc.watched = append(sc.watched, objs[0])
+	}
+	sc.watched = append(sc.watched, other[0])
+	mutate := func(o oid) {
+		switch {
+		case !exists[o]:
+			sc.steps = append(sc.steps, rstep{"add", o, r.Intn(nVariants)})
+			exists[o] = true
+		case r.Intn(5) < 2:
+			sc.steps = append(sc.steps, rstep{"delete", o, 0})
+			exists[o] = false
+		default:
+			sc.steps = append(sc.steps, rstep{"update", o, r.Intn(nVariants)})
+		}
+	}
+	some := func(n int) {
+		for i := 0; i < n; i++ {
+			if r.Intn(4) == 0 {
+				mutate(other[r.Intn(len(other))])
+			} else {
+				mutate(objs[r.Intn(len(objs))])
+			}
+		}
+	}
+	some(r.Intn(3))
+	sc.steps = append(sc.steps, rstep{"break", objs[0], 0})
+	some(1 + r.Intn(6))
+	if r.Intn(3) == 0 { // delete + re-create (new UID) of something that exists
+		for _, o := range objs {
+			if exists[o] {
+				sc.steps = append(sc.steps, rstep{"delete", o, 0}, rstep{"add", o, r.Intn(nVariants)})
+				break
+			}
+		}
+	}
+	sc.steps = append(sc.steps, rstep{"relist", objs[0], 0})
+	some(r.Intn(4))
+	return sc
+}
+
 // ---- emission ----------------------------------------------------------------------------
 
 func (sc *rscript) caseTerm(o *robs) (string, string) {
@@ -886,6 +1129,12 @@ func (sc *rscript) caseTerm(o *robs) (string, string) {
 		case "cancel":
 			steps = append(steps, "SCancel")
 			txt = append(txt, "cancel")
+		case "break":
+			steps = append(steps, fmt.Sprintf("(SBreak %d)", s.id.gk))
+			txt = append(txt, "BREAK-WATCH "+kinds[s.id.gk].gvk.Kind)
+		case "relist":
+			steps = append(steps, fmt.Sprintf("(SRelist %d)", s.id.gk))
+			txt = append(txt, "410-RELIST "+kinds[s.id.gk].gvk.Kind)
 		case "forbid":
 			txt = append(txt, "forbid-list "+kinds[s.id.gk].gvk.Kind)
 		case "fail":
@@ -969,6 +1218,21 @@ func runReporter(r *rand.Rand, tier, outDir string, sum *emit.Summary) error {
 	for i := 0; i < nRandom/8; i++ {
 		scripts = append(scripts, genBenignThenFatal(r))
 	}
+	for i := 0; i < nRandom/6; i++ {
+		scripts = append(scripts, genGapScript(r))
+	}
+	// A panic in an informer goroutine normally kills the process (client-go's
+	// HandleCrash re-panics).  Keep the process alive so that the script gets its
+	// case (the event of the panicking handler is missing there) and report every
+	// recovered panic as an implementation failure.
+	utilruntime.ReallyCrash = false
+	var panicMu sync.Mutex
+	var panics []string
+	utilruntime.PanicHandlers = append(utilruntime.PanicHandlers, func(_ context.Context, r interface{}) {
+		panicMu.Lock()
+		defer panicMu.Unlock()
+		panics = append(panics, fmt.Sprint(r))
+	})
 	// warm-up (starts process-wide helper goroutines), then take the baseline
 	_ = runReporterScript(&rscript{label: "warmup", root: true, watched: []oid{{2, 1, 1}}})
 	time.Sleep(50 * time.Millisecond)
@@ -997,6 +1261,13 @@ func runReporter(r *rand.Rand, tier, outDir string, sum *emit.Summary) error {
 		}
 		time.Sleep(10 * time.Millisecond)
 	}
+	panicMu.Lock()
+	sum.Extra["watcher_informer_panics"] = len(panics)
+	if len(panics) > 0 {
+		sum.ImplFailures = append(sum.ImplFailures, fmt.Sprintf(
+			"watcher: %d panic(s) in informer goroutines (each would crash the process): %s", len(panics), panics[0]))
+	}
+	panicMu.Unlock()
 	sum.Extra["watcher_goroutines_above_baseline"] = leak
 	if leak > 0 {
 		sum.ImplFailures = append(sum.ImplFailures, fmt.Sprintf("watcher: %d goroutines above the baseline 5s after all watches were cancelled: %s", leak, goroutineSummary()))
